@@ -13,5 +13,4 @@ rsync -a --delete --exclude target --exclude replays --exclude evidence --exclud
 mkdir -p "$dst/replays" "$dst/evidence"
 sed -i "s|path = \"/repo\"|path = \"$alt\"|" "$dst/sim/Cargo.toml" "$dst/miri/Cargo.toml"
 sed -i "s|/repo/|$alt/|g" "$dst/mkshadow.sh"
-sed -i "s|path = \"/verif/shadow\"|path = \"$dst/shadow\"|" "$dst/shuttle/Cargo.toml"
 cd "$dst" && exec ./check "$@" --no-evidence
